@@ -369,10 +369,18 @@ def check(chk):
         for e in w:
             if isinstance(e, ast.List):
                 names |= {x.value for x in e.elts if isinstance(x, ast.Constant)}
+            elif isinstance(e, ast.Constant) and isinstance(e.value, str):
+                names.add(e.value)
         chk.ob("TABLE-8", "%s.subscribe waits for events the game actually posts" % cls, bool(names) and names <= posted_lits, f_.where(),
                detail="waits %s" % sorted(names), construct=f_.ident, text="%s waits %s" % (cls, sorted(names - posted_lits)))
+        if cls == "PlayerPlaceholder":
+            # `current_player` changes its meaning when a turn starts *and* when it ends (no player between turns / before the game)
+            chk.ob("TABLE-8", "a template reading current_player is woken when a turn starts and when a turn ends", {"player_turn_started", "player_turn_ended"} <= names,
+                   f_.where(), detail="waits %s" % sorted(names), construct=f_.ident, text="current_player wake-ups %s" % sorted(names))
 
     _producers(chk, repo)
+    from sa.helpers import setting_value_source
+    setting_value_source(chk, "TABLE-8")
     _defaults(chk, repo)
     _conditions_at_dispatch(chk, repo)
 
@@ -703,6 +711,8 @@ def battery():
         M("empty result converted instead of defaulted", "mpf/core/placeholder_manager.py", "        if result is None:\n            return self.default_value\n        return self.convert_result(result)\n\n    def evaluate_or_none", "        return self.convert_result(result)\n\n    def evaluate_or_none", "DEFAULT-16"),
         M("missing variable always raised", "mpf/core/placeholder_manager.py", "            if fail_on_missing_params:\n                raise\n            return self.default_value", "            raise", "DEFAULT-16"),
         M("subscribing evaluation keeps the error object as value", "mpf/core/placeholder_manager.py", "        if isinstance(result, TemplateEvalError) or result is None:\n            result = self.default_value", "        if result is None:\n            result = self.default_value", "DEFAULT-16"),
+        M("a stored falsy setting falls back to the default", "mpf/core/settings_controller.py", "        if not self.machine.variables.is_machine_var(self._settings[setting_name].machine_var):\n            value = self._settings[setting_name].default\n        else:\n            value = self.machine.variables.get_machine_var(self._settings[setting_name].machine_var)\n", "        value = self.machine.variables.get_machine_var(self._settings[setting_name].machine_var)\n        if not value:\n            value = self._settings[setting_name].default\n", "TABLE-8"),
+        M("current_player templates are not woken when a turn starts", "mpf/core/placeholder_manager.py", "return self._machine.events.wait_for_any_event([\"player_turn_ended\", \"player_turn_started\"])", "return self._machine.events.wait_for_event(\"player_turn_ended\")", "TABLE-8"),
     ]
 
 
